@@ -1,6 +1,7 @@
 (* Properties/C11.v — Buffer string encodings round-trip and every decoding entry point agrees. *)
 From GN Require Import Common.Base Common.Int64 Model.BufferTypes Gen.BufferMethods Model.Buffer Model.Codecs Gen.BufferCodecs
   Model.BufferStrings Spec.BufferStringsSpec Proofs.CodecProofs Proofs.BufferStringsProofs.
+From GN Require Import Model.BufferSrc.
 Open Scope list_scope.
 Open Scope Z_scope.
 
@@ -66,6 +67,12 @@ Theorem C11_codec_table : buffer_codecs_translated = true /\
   assoc_z [98;97;115;101;54;52;117;114;108] string_codecs = Some CBase64Url.
 Proof. repeat split; reflexivity. Qed.
 Print Assumptions C11_codec_table.
+
+(* the string entry points the model mirrors (DecodeBytes, EncodeBytes, fromString, getStringCodec, fill, alloc, toString, equals,
+   write) have the text the model was written against (regenerated from buffer.go on every run) *)
+Theorem C11_source_tie : buffer_strings_src = expected_buffer_strings_src.
+Proof. vm_compute. reflexivity. Qed.
+Print Assumptions C11_source_tie.
 
 Example C11_nonvacuous :
   b64_decode (b64_encode_std [255; 254; 253; 0; 1]) = [255; 254; 253; 0; 1] /\
